@@ -447,6 +447,13 @@ def run(ctx):
     # ---- R-C12.10 one keyspace's maintenance never touches another keyspace's folder (shared: C16/C18 use the generic form)
     owner_coherence(ctx, "R-C12.10")
 
+    # ---- cross-cutting disciplines (rules/discipline.py)
+    from .. import discipline as D
+    # a keyspace creation / deletion that fails says so
+    D.error_discipline(ctx, "R-C12.11", scope=lambda f: f.startswith(("db::Database::keyspace", "db::Database::delete_keyspace", "meta_keyspace::", "recovery::recover_keyspaces")))
+    # every keyspace folder / every record is looked at
+    D.loops_visit_all(ctx, "R-C12.12", only=("recovery::recover_keyspaces", "keyspace::Keyspace::inner_rotate_memtable", "db::Database::recover"))
+
 
 def _peel(tm):
     while tm is not None and tm.k == "call" and A.is_transparent(tm.a[0]) and tm.a[1]:
